@@ -65,6 +65,10 @@ pub static DRIVERS: &[Driver] = &[
     Driver { name: "misc", run: crate::drivers2::misc_driver },
     Driver { name: "psblob", run: crate::drivers3::ps_blob_driver },
     Driver { name: "glyph", run: glyph_driver },
+    Driver { name: "layout2", run: crate::drivers4::layout2_driver },
+    Driver { name: "gvar2", run: crate::drivers4::gvar2_driver },
+    Driver { name: "aat", run: crate::drivers4::aat_driver },
+    Driver { name: "raw", run: crate::drivers4::raw_driver },
 ];
 
 pub fn find(name: &str) -> Option<usize> {
